@@ -24,6 +24,7 @@ def _native(rule_name, attrs, collecting):
     from metapype.model.node import Node
     Node.store.clear()
     n = Node(emlctx.element_for_rule(rule_name) or "x", id="n")
+    n.nsmap = {"p": "urn:p", "xsi": "http://www.w3.org/2001/XMLSchema-instance"}
     for k, v in attrs.items():
         n.add_attribute(k, v)
     n._content = emlctx.valid_content(rule_name)
@@ -107,7 +108,7 @@ def encode(job):
         return res
     it = view.q
     res["mode"] = view.mode
-    keys = list(spec.keys()) + [FOREIGN_KEY]
+    keys = list(spec.keys()) + [FOREIGN_KEY, nodeenc.FOREIGN_QKEY]
     P, V = h["P"], h["V"]
 
     class _E:
@@ -126,6 +127,7 @@ def encode(job):
         if len(sp) > 1:
             viol.append(z3.And(P[k], z3.Not(z3.Or([V[k].z == it.intern.code(v) for v in sp[1:]]))))
     viol.append(P[FOREIGN_KEY])
+    viol.append(P[nodeenc.FOREIGN_QKEY])
     ok = znot(zor(*viol))
     esc = view.esc
     normal = view.normal
@@ -151,7 +153,7 @@ def encode(job):
         qs["error_count_differs"] = zand(normal, nerr != nviol)
         # per code: number of appended errors of that code == number of violated constraints of that kind
         kinds = {"ATTRIBUTE_REQUIRED": [z3.Not(P[k]) for k, sp in spec.items() if sp[0]],
-                 "ATTRIBUTE_UNRECOGNIZED": [P[FOREIGN_KEY]],
+                 "ATTRIBUTE_UNRECOGNIZED": [P[FOREIGN_KEY], P[nodeenc.FOREIGN_QKEY]],
                  "ATTRIBUTE_EXPECTED_ENUM": [z3.And(P[k], z3.Not(z3.Or([V[k].z == it.intern.code(v) for v in sp[1:]])))
                                              for k, sp in spec.items() if len(sp) > 1]}
         diffs = []
@@ -255,7 +257,7 @@ def run(tier, only=None):
     random.Random(sd).shuffle(rules)
     jobs = [(rn, coll, sd) for rn in rules for coll in (False, True)]
     rep.bounds = {"note": "no length bound: per declared attribute {absent, each listed value, an unlisted value} and one foreign attribute, "
-                          "all combinations in one query per (rule, mode); attribute iteration order = declaration order"}
+                          "all combinations in one query per (rule, mode); two foreign attributes: a plain one and one of the form prefix:local with the prefix bound in the node's namespace map; attribute iteration order = declaration order"}
     rep.extra["rule"] = "one encoding per (rule, mode) + one introspection encoding per rule; non-trivial when the rule declares at least one attribute or both twins are satisfiable"
     rep.assumptions = ["attribute values are strings; two unlisted values behave alike", "node.attributes iterates in insertion (declaration) order"]
     rep.stubs = ["node.attributes replaced by a symbolic dict (membership, iteration, lookup are interpreter primitives)"]
